@@ -18,6 +18,8 @@ def main(tier):
             f = extract.get(rel, q); rep.under_contract(rel + '::' + q, rel, f.l0, f.l1)
         except KeyError: pass
     annotate(rep)
+    from contracts import vectlist_sx
+    vectlist_sx.run(rep)      # contract of Crystal.vectlist (orthonormal frame of a site's vector basis), symbolic, every unit vector, both branches
     return finish(rep, 'exploration', 'Postconditions of VacancyMediated.Lij with omega2 prefactors scaled by 1e-3 ... 1e16: default selection finite and symmetric; forced large-rate and forced standard algorithm agree to 1e-7 for scales <= 1e6; every tensor at scale >= 1e12 within 1e-3 of its value at 1e10 (constants fixed in DESIGN.md before the contract existed).', './check C08 --tier ' + tier)
 
 
